@@ -442,9 +442,23 @@ def replay(args):
         rep = common.Report('C09', args, 'pipe')
         return pipe_common.replay('C09', args, rep)
     a, b = obj['pair']
-    pool = common.ZygotePool(hashseeds=sorted({a.get('hashseed') or 0, b.get('hashseed') or 0}), width=2)
-    vals = run_pair(pool, a, b)
-    pool.close()
+    ok = False
+    for attempt in range(1, 6):       # see pipe_common.replay: uncontrolled address / entropy dependence may need a retry
+        pool = common.ZygotePool(hashseeds=sorted({a.get('hashseed') or 0, b.get('hashseed') or 0}), width=2)
+        vals = run_pair(pool, a, b)
+        pool.close()
+        ok = _pair_differs(obj, vals)
+        if ok:
+            break
+    if ok:
+        print(f"REPRODUCED class={obj['class']} (attempt {attempt})")
+        print(f'VIOLATION property=C09 replay={args.replay}')
+        return 1
+    print('NOT-REPRODUCED (5 attempts)')
+    return 0
+
+
+def _pair_differs(obj, vals):
     ok = False
     if vals is not None:
         if obj['class'] == 'ranks-differ':
@@ -453,12 +467,7 @@ def replay(args):
             ok = outcome(vals[0]) != outcome(vals[1])
         else:
             ok = vals[0].get('digest') != vals[1].get('digest') or vals[0].get('files') != vals[1].get('files')
-    if ok:
-        print(f"REPRODUCED class={obj['class']}")
-        print(f'VIOLATION property=C09 replay={args.replay}')
-        return 1
-    print('NOT-REPRODUCED')
-    return 0
+    return ok
 
 
 if __name__ == '__main__':
